@@ -42,6 +42,11 @@ pub enum Shape {
     /// 8 MiB allocated and freed, then 3 MiB allocated and freed: every free pushes top over the trim
     /// threshold, so each round goes through sys_trim (mremap shrink / munmap) twice
     Round,
+    /// realloc ladders on blocks aligned to 32 / 64 / 128 / 4096 (the allocate-copy-free branch of realloc):
+    /// grow by doubling, grow by small steps, shrink by halves, exact shrink, grow-then-shrink cycles
+    AlignedLadder,
+    /// alloc_probe only: Vec<#[repr(align(N))] record> pushed, shrunk to fit, pushed again, dropped
+    VecAligned,
 }
 #[derive(Copy, Clone, PartialEq, Eq, Debug)]
 pub enum Order {
@@ -49,14 +54,17 @@ pub enum Order {
     Fifo,
     Random,
 }
-pub const SHAPES: [(&str, Shape); 6] = [
+pub const SHAPES: [(&str, Shape); 8] = [
     ("small", Shape::Small),
     ("large", Shape::Large),
     ("mixed", Shape::Mixed),
     ("overaligned", Shape::OverAligned),
     ("ladder", Shape::Ladder),
     ("round", Shape::Round),
+    ("aladder", Shape::AlignedLadder),
+    ("vecalign", Shape::VecAligned),
 ];
+pub const LADDER_ALIGNS: [usize; 4] = [32, 64, 128, 4096];
 pub const ORDERS: [(&str, Order); 3] = [("lifo", Order::Lifo), ("fifo", Order::Fifo), ("random", Order::Random)];
 
 pub fn shape_by_name(s: &str) -> Option<Shape> {
@@ -119,6 +127,13 @@ pub fn plan(shape: Shape, seed: u64, share: usize) -> Vec<Item> {
                 v.push(Item { size: 16 + r.below(48) as usize, align: 8 });
             }
         }
+        Shape::AlignedLadder => {
+            for i in 0..(40 / share).max(5) {
+                let align = LADDER_ALIGNS[i % 4];
+                v.push(Item { size: align * (1 + r.below(3) as usize) + r.below(40) as usize, align });
+            }
+        }
+        Shape::VecAligned => {}
         Shape::Round => {
             v.push(Item { size: (8 << 20) + r.below(4096) as usize, align: 8 });
             v.push(Item { size: (3 << 20) + r.below(4096) as usize, align: 8 });
@@ -192,6 +207,9 @@ pub unsafe fn rep_allocate<H: Heap>(h: &mut H, shape: Shape, plan: &[Item], slot
         slots.push(Slot { p, size: it.size, align: it.align });
     }
     st.peak_live = st.peak_live.max(live);
+    if shape == Shape::AlignedLadder {
+        aligned_ladder(h, slots, st, &mut live);
+    }
     if shape == Shape::Ladder {
         // grow every block step by step (interleaved across blocks so that in-place growth is
         // mostly impossible), then shrink back
@@ -223,6 +241,71 @@ pub unsafe fn rep_allocate<H: Heap>(h: &mut H, shape: Shape, plan: &[Item], slot
             s.p = p;
             s.size = new;
         }
+    }
+}
+
+unsafe fn re<H: Heap>(h: &mut H, s: &mut Slot, new: usize, st: &mut RepStats, live: &mut usize) {
+    // a ladder that outgrows 256 KiB falls back to a quarter of that (keeps the peak moderate)
+    let new = if new > (256 << 10) { (64 << 10) + new % 4096 } else { new.max(1) };
+    let p = h.realloc(s.p, s.size, s.align, new);
+    st.calls += 1;
+    if p.is_null() || (p as usize) & (s.align - 1) != 0 {
+        st.failed += 1;
+        return;
+    }
+    *live = *live + new - s.size;
+    st.churned += new;
+    st.peak_live = st.peak_live.max(*live);
+    s.p = p;
+    s.size = new;
+    p.write_volatile(0x77);
+    p.add(new - 1).write_volatile(0x77);
+}
+
+/// Every block walks one of five realloc patterns (by its index), interleaved across blocks.
+unsafe fn aligned_ladder<H: Heap>(h: &mut H, slots: &mut Vec<Slot>, st: &mut RepStats, live: &mut usize) {
+    for round in 0..24usize {
+        for (i, s) in slots.iter_mut().enumerate() {
+            let a = s.align;
+            match i % 5 {
+                // grow by doubling (Vec-style), 12 times, then stay
+                0 => {
+                    if round < 12 {
+                        re(h, s, s.size * 2, st, live);
+                    }
+                }
+                // grow by small steps
+                1 => re(h, s, s.size + 24 + (round % 3) * a, st, live),
+                // grow by doubling 10 times, then shrink by halves
+                2 => {
+                    if round < 10 {
+                        re(h, s, s.size * 2 + 1, st, live);
+                    } else {
+                        re(h, s, s.size / 2, st, live);
+                    }
+                }
+                // grow with slack (capacity doubling), then shrink to the exact length used (shrink_to_fit)
+                3 => {
+                    if round % 4 == 3 {
+                        re(h, s, s.size - s.size / 3 - 7, st, live);
+                    } else {
+                        re(h, s, s.size * 2, st, live);
+                    }
+                }
+                // grow-then-shrink cycles
+                _ => {
+                    if round % 6 < 3 {
+                        re(h, s, s.size * 3 + a, st, live);
+                    } else {
+                        re(h, s, s.size / 3, st, live);
+                    }
+                }
+            }
+        }
+    }
+    // shrink_to_fit-style exact shrink of everything before the free phase
+    for s in slots.iter_mut() {
+        re(h, s, 1 + s.size / 5, st, live);
     }
 }
 
@@ -281,8 +364,11 @@ pub const fn req_of(chunk: usize) -> usize {
 pub struct Steady {
     /// hot chunk size (multiple of 16, >= 32)
     pub chunk: usize,
-    /// 0: every object has the hot size; 1: hot size mostly, plus half and hot+40
+    /// 0: every object has the hot size; 1: hot size mostly, plus half and hot+40;
+    /// 2: like 1 and, every step, one live object is realloc'ed to another of these sizes or to twice the hot size
     pub mix: u8,
+    /// alignment of every object (above 16: memalign blocks, realloc = allocate-copy-free)
+    pub align: usize,
     pub policy: Order,
     /// 0 none, 1 remainder becomes dv (small carve), 2 remainder goes to a bin (large carve)
     pub primer: u8,
@@ -322,6 +408,7 @@ fn steady_size(p: &Steady, r: &mut Prng, slack: usize) -> usize {
     if p.mix == 0 {
         return hot;
     }
+    let hot = hot.max(2);
     match r.below(8) {
         0 => (hot / 2).max(1),
         1 => hot + 40,
@@ -398,15 +485,15 @@ pub unsafe fn steady_rep<H: Heap>(h: &mut H, p: &Steady, seed: u64, slots: &mut 
     let mut live = 0usize;
     for _ in 0..p.live {
         let size = steady_size(p, &mut r, slack);
-        let q = h.alloc(size, 8);
+        let q = h.alloc(size, p.align);
         st.calls += 1;
-        if q.is_null() {
+        if q.is_null() || (q as usize) & (p.align - 1) != 0 {
             st.failed += 1;
             continue;
         }
         touch(q, size, 0x3C);
         live += size;
-        slots.push(Slot { p: q, size, align: 8 });
+        slots.push(Slot { p: q, size, align: p.align });
     }
     st.peak_live = st.peak_live.max(live + p.chunk + 512);
     // ---- steady state ----
@@ -431,16 +518,27 @@ pub unsafe fn steady_rep<H: Heap>(h: &mut H, p: &Steady, seed: u64, slots: &mut 
                 Order::Random => r.below(n as u64) as usize,
             };
             let s = slots[idx];
+            if s.p.is_null() {
+                continue;
+            }
             h.free(s.p, s.size, s.align);
             live -= s.size;
             slots[idx].p = core::ptr::null_mut();
         }
+        if p.mix == 2 {
+            // realloc-driven churn inside the bounded live set
+            let idx = r.below(n as u64) as usize;
+            if !slots[idx].p.is_null() {
+                let new = if r.below(4) == 0 { 2 * req_of(p.chunk) } else { steady_size(p, &mut r, slack) };
+                re(h, &mut slots[idx], new, st, &mut live);
+            }
+        }
         for s in slots.iter_mut() {
             if s.p.is_null() {
                 let size = steady_size(p, &mut r, slack);
-                let q = h.alloc(size, 8);
+                let q = h.alloc(size, p.align);
                 st.calls += 2;
-                if q.is_null() {
+                if q.is_null() || (q as usize) & (p.align - 1) != 0 {
                     st.failed += 1;
                     // keep the slot empty-handed: retry with the minimum so the set stays defined
                     s.size = 0;
@@ -452,6 +550,7 @@ pub unsafe fn steady_rep<H: Heap>(h: &mut H, p: &Steady, seed: u64, slots: &mut 
                 live += size;
                 s.p = q;
                 s.size = size;
+                s.align = p.align;
             }
         }
         st.peak_live = st.peak_live.max(live + p.chunk + 512);
